@@ -112,7 +112,23 @@ pub mod shim {
 }
 
 fn rel(root: &Path, p: &Path) -> String {
-    p.strip_prefix(root).map(|r| r.to_string_lossy().into_owned()).unwrap_or_else(|_| p.to_string_lossy().into_owned())
+    // (lexically normalised: "./" and "<dir>/.." spellings of a root do not count as differences)
+    match p.strip_prefix(root) {
+        Ok(r) => {
+            let mut parts: Vec<String> = vec![];
+            for c in r.components() {
+                match c {
+                    std::path::Component::CurDir => {}
+                    std::path::Component::ParentDir => {
+                        parts.pop();
+                    }
+                    other => parts.push(other.as_os_str().to_string_lossy().into_owned()),
+                }
+            }
+            parts.join("/")
+        }
+        Err(_) => p.to_string_lossy().into_owned(),
+    }
 }
 
 fn classify_err(base: &Path, e: &ignore::Error) -> Seen {
@@ -154,7 +170,22 @@ fn classify_errs(base: &Path, e: &ignore::Error) -> Vec<Seen> {
 fn builder(base: &Path, tree: &TreeSpec, cfg: &WalkCfg) -> WalkBuilder {
     // "-" stands for standard input: a root that is reported as an entry of its own and is
     // never opened or examined by the walker
-    let rp = |r: &String| if r == "-" { PathBuf::from("-") } else { base.join(r) };
+    let rp = |r: &String| {
+        if r == "-" {
+            return PathBuf::from("-");
+        }
+        let plain_dir = std::fs::symlink_metadata(base.join(r)).map(|m| m.is_dir()).unwrap_or(false);
+        let (dir, name) = match r.rfind('/') {
+            Some(i) => (&r[..i + 1], &r[i + 1..]),
+            None => ("", r.as_str()),
+        };
+        match cfg.root_spelling {
+            1 => PathBuf::from(format!("{}/{dir}./{name}", base.display())),
+            2 if plain_dir => PathBuf::from(format!("{}/{r}/", base.display())),
+            3 if plain_dir => PathBuf::from(format!("{}/{r}/../{name}", base.display())),
+            _ => base.join(r),
+        }
+    };
     let mut roots = tree.roots.iter();
     let mut b = WalkBuilder::new(rp(roots.next().unwrap()));
     for r in roots {
@@ -409,6 +440,12 @@ fn gen_case_c07(sub: u64, thorough: bool) -> Case {
             tree.nodes.push(Node { path: format!("{parent}/zl{i}"), kind: NodeKind::Link(target) });
             linked = true;
         }
+        if rng.chance(1, 3) && !dirs.is_empty() {
+            // a socket, and a link to it: handed out like any other entry, followed or not
+            let sp = format!("{}/zsock", dirs[rng.below(dirs.len())]);
+            tree.nodes.push(Node { path: sp.clone(), kind: NodeKind::Socket });
+            tree.nodes.push(Node { path: format!("{}/zlsock", dirs[rng.below(dirs.len())]), kind: NodeKind::Link(sp) });
+        }
         cfg.follow_links = rng.chance(3, 4);
         if rng.chance(1, 3) {
             // a size limit: it is about files, also when a directory is reached through a link
@@ -534,6 +571,9 @@ fn gen_case_c06(sub: u64, thorough: bool) -> Case {
     }
     cfg.type_x = rng.chance(1, 8);
     cfg.sort_names = rng.chance(1, 6);
+    if rng.chance(1, 6) {
+        cfg.root_spelling = 1 + rng.below(3) as u8;
+    }
     if rng.chance(1, 8) {
         // standard output is one of the tree's files (`rg pat > dir/out`)
         let files: Vec<&Node> = tree.nodes.iter().filter(|n| matches!(n.kind, NodeKind::File(_))).collect();
@@ -585,6 +625,11 @@ fn gen_case_c06(sub: u64, thorough: bool) -> Case {
             let d = dirs[rng.below(dirs.len())].path.clone();
             opendir_fault = Some(if rng.chance(1, 2) { d } else { format!("readdir:{}:{d}", rng.below(4)) });
         }
+    }
+    let mut cfg = cfg;
+    if stat_fault.is_some() || opendir_fault.is_some() {
+        // (the syscall shim recognises its victim by the spelling of the path)
+        cfg.root_spelling = 0;
     }
     Case {
         tree,
